@@ -3,6 +3,7 @@ From Coq Require Import ZArith List Bool.
 From B2Z Require Import Base.Prims Model.Schema Proofs.SchemaProofs Bridge.BridgeDtype.
 From B2Z Require Gen.GenDtype.
 From B2Z Require Import Gen.GenSchema Bridge.BridgeSchema.
+From B2Z Require Gen.GenInitArray Bridge.BridgeInitArray.
 Import ListNotations.
 Open Scope Z_scope.
 
@@ -93,6 +94,15 @@ Example translated_from_field_instance :
   gen_from_field p g (AField 2 6) = Ok {| sp_name := AField 2 6; sp_dtype := 1; sp_shape := [7; 3; 2]; sp_chunks := [4; 2; 2];
                                           sp_dims := [DVariants; DSamples; DField 2 6]; sp_field := Some (2, 6) |}.
 Proof. vm_compute. split; reflexivity. Qed.
+
+(* ---- TRANSLATOR TIE for "a user schema is honoured exactly": VcfZarrWriter.init_array as read off the source on this run
+   (translator/initarr2coq.py -> Gen/GenInitArray.v): every requested property of an array specification -- name, chunks,
+   dtype, compressor, filters, dimension names, description -- reaches zarr VERBATIM (compressor / filters through
+   numcodecs.get_codec only); the shape is the specification's with nothing but the variants axis replaced by the plan's row
+   count; the object codec depends on the dtype alone; and no other keyword is passed *)
+Theorem translated_array_creation_honours_spec : BridgeInitArray.honours_spec.
+Proof. exact BridgeInitArray.honours_spec_lemma. Qed.
+Print Assumptions translated_array_creation_honours_spec.
 
 Example c10_instance : GenDtype.min_int_dtype (-129) 5 = Ok 2 /\ cast 1 200 = -56 /\ cast 2 200 = 200.
 Proof. vm_compute. repeat split; reflexivity. Qed.
